@@ -2,6 +2,8 @@
 
 KINDS = ['pass', 'fail_output', 'fail_exc', 'all_skipped', 'partly_skipped', 'expected_exc', 'disabled', 'comment_only',
          'note_then_skip', 'skip_then_note', 'fail_directive_first', 'fail_compile_first', 'late_disable_word', 'warn_then_fail', 'warn_then_pass']
+# kinds used by the native-runner checks only (under pytest a first line '# pytest.skip' is a force-disable word)
+NATIVE_ONLY_KINDS = ['pytest_skip_comment']
 DISABLE_WORDS = ['# DISABLE_DOCTEST', '#DISABLE', '#  unstable', '# FAILING', '#SCRIPT', '# slow_doctest']
 
 
@@ -39,6 +41,9 @@ def doc_lines(kind, n):
         return ['>>> import warnings', ">>> warnings.warn('careful %d')" % n, ">>> print('a%d')" % n, 'b%d' % n]
     if kind == 'warn_then_pass':
         return ['>>> import warnings', ">>> warnings.warn('careful %d', RuntimeWarning)" % n, ">>> print('a%d')" % n, 'a%d' % n]
+    if kind == 'pytest_skip_comment':
+        # for the native runner this first line is an ordinary comment: the doctest runs (and fails by output)
+        return ['>>> # pytest.skip is honoured by the pytest plugin only %d' % n, ">>> print('k%d')" % n, 'WRONG%d' % n]
     if kind == 'comment_only':
         return ['>>> # nothing but a comment %d' % n]
     raise KeyError(kind)
@@ -47,7 +52,7 @@ def doc_lines(kind, n):
 # verdict when the doctest is run
 VERDICT = {'pass': 'passed', 'fail_output': 'failed', 'fail_exc': 'failed', 'all_skipped': 'skipped',
            'partly_skipped': 'passed', 'expected_exc': 'passed', 'disabled': 'failed', 'comment_only': 'skipped',
-           'note_then_skip': 'skipped', 'skip_then_note': 'skipped', 'fail_directive_first': 'failed', 'fail_compile_first': 'failed', 'late_disable_word': 'passed', 'warn_then_fail': 'failed', 'warn_then_pass': 'passed'}
+           'note_then_skip': 'skipped', 'skip_then_note': 'skipped', 'fail_directive_first': 'failed', 'fail_compile_first': 'failed', 'late_disable_word': 'passed', 'warn_then_fail': 'failed', 'warn_then_pass': 'passed', 'pytest_skip_comment': 'failed'}
 
 
 def module_source(kinds, layout='functions'):
